@@ -1028,7 +1028,7 @@ static SpellTable make_spelling(Choice& ch0, uint64_t salt, const std::vector<in
         {{'c', "c", "c"}, {'s', "<=", "<="}, {'s', "if", "if"}, {'t', "c", "c"}, {'c', "\x11", "\\x11"}},       // control characters whose \xHH names share a digit with '\x01' (same low nibble) ...
         {{'c', "d", "d"}, {'s', "<", "<"}, {'s', "i", "i"}, {'r', "d[0-9]+", "dnum"}, {'s', ";\n", ";\n"}},           // a string term with a line break inside
         {{'c', "e", "e"}, {'s', "end", "end"}, {'c', "\x01", "\\x01"}, {'s', "en", "en"}, {'c', std::string(1, '\0'), "\\x00"}},   // a char term that is the NUL byte
-        {{'c', "f", "f"}, {'s', "==", "=="}, {'c', "=", "="}, {'t', "f", "f"}, {'c', "\x0e", "\\x0e"}}};                        // ... or its 16-block
+        {{'c', "f", "f"}, {'s', "==", "=="}, {'c', "=", "="}, {'t', "f", "f"}, {'c', "\x0e", "\\x0E"}}};                        // ... or its 16-block
     SpellTable t;
     for (size_t i = 0; i < 6; ++i) t.sp.push_back(menu[i][ch.below(uint32_t(menu[i].size() > 4 && ch.chance(1, 4) ? menu[i].size() : 4))]);
     if (getenv("EMIT_NAMED_TERMS"))
